@@ -120,3 +120,11 @@ def vcomps(v):
     """The components of a Vector as an ordered dict name -> Array, read through the PUBLIC attributes x, y, z
     (the components the Vector has now)."""
     return {c: getattr(v, c) for c in "xyz" if getattr(v, c, None) is not None}
+
+
+def njit_helpers_as_python(modname, skip=()):
+    """Stub table entries replacing every numba-compiled function of a module by its Python source (py_func), so that
+    helper kernels called from a kernel's Python source run on the symbolic values too."""
+    from symx import install
+    M = install.mod(modname)
+    return {k: v.py_func for k, v in vars(M).items() if hasattr(v, "py_func") and k not in skip}
